@@ -125,17 +125,35 @@ class RmWatcher(object):
             for n in list(existing) + [e.swapcase() for e in existing] + ['zz', None]:
                 for nostop in (True, False):
                     yield {'existing': list(existing), 'name': n, 'nostop': nostop}
+                if isinstance(n, str):
+                    # the stop of the removed watcher suspends: what do other requests see meanwhile?
+                    yield {'existing': list(existing), 'name': n, 'nostop': False, 'slow_stop': True}
 
     def run(self, inp):
         a = bare_arbiter(inp['existing'])
         before = dict(a._watchers_names)
         blist = list(a.watchers)
         obs = {}
+        key = inp['name'].lower() if isinstance(inp['name'], str) else None
+        if inp.get('slow_stop') and before.get(key) is not None:
+            from tornado import gen
+            tgt = before[key]
+
+            @gen.coroutine
+            def slow_stop(*args, **kw):
+                # stand-in for a stop that has to wait for its workers: records what the rest of the daemon can
+                # observe while rm_watcher is suspended in it
+                obs['susp_dir'] = sorted(dir_violations(a))
+                obs['susp_key_in'] = key in a._watchers_names
+                obs['susp_target_in_list'] = any(w is tgt for w in a.watchers)
+                obs['susp_len'] = len(a.watchers)
+                yield gen.sleep(0.01)
+                tgt._status = 'stopped'
+            tgt._stop = slow_stop
         res, exc = run_coroutine(lambda: a.rm_watcher(inp['name'], nostop=inp['nostop']))
         if exc is not None:
             obs['raised'] = type(exc).__name__
         obs['dir'] = sorted(dir_violations(a))
-        key = inp['name'].lower() if isinstance(inp['name'], str) else None
         obs['key_was_in'] = key in before
         obs['key_in'] = key in a._watchers_names
         target = before.get(key)
@@ -155,6 +173,15 @@ class RmWatcher(object):
         def both(name, i):
             bad.add('post[%s]' % name)
             bad.add('detached-post[%d]' % i)
+        if 'susp_dir' in obs:
+            for d in obs['susp_dir']:
+                bad.add('detached-post[%d]' % idx[d])
+            if obs['susp_key_in']:
+                bad.add('detached-post[6]')
+            if obs['susp_target_in_list']:
+                bad.add('detached-post[7]')
+            if obs['susp_len'] != obs['len'][0] - 1:
+                bad.add('detached-post[9]')
         if 'raised' not in obs:
             for d in obs['dir']:
                 both(str(idx[d]), idx[d])
